@@ -32,7 +32,7 @@ BUS = "org.freedesktop.DBus"
 ERRP = "org.freedesktop.DBus.Error."
 HIGH = 1000000          # serials of the harness's own driver calls start here; generated serials stay far below
 ACTIVATABLE = (8, 9)
-TYPES = {"c": METHOD_CALL, "r": METHOD_RETURN, "e": ERROR, "s": SIGNAL}
+TYPES = {"c": METHOD_CALL, "r": METHOD_RETURN, "e": ERROR, "s": SIGNAL, "v": 5, "u": 9, "w": 255}     # v, u, w: types the bus does not know
 
 
 def wk_name(k):
